@@ -124,3 +124,62 @@ contract(
     fstrings='eval',
     note='E: nothing escapes (both try/except Exception blocks); S: the requester always gets exactly one answer',
 )
+
+
+# ---------------------------------------------------------------------------
+# sdp.Client.on_pdu: the pending-request slot of the SDP client.  send_request waits for `pending_response` WITHOUT a
+# time-out while holding the request semaphore, so whatever on_pdu does with the bytes of the server decides whether the
+# requester (and every later request of this client) ever continues.  S: a response to the pending request resolves the
+# waiter on every exit -- with the response, with the server's error, or with the parse error when the bytes are not an
+# SDP PDU; only a PDU that demonstrably belongs to another transaction (or no request pending) is ignored.
+# ---------------------------------------------------------------------------
+def sdp_parse_response(ghost, cls, pdu):
+    k = fresh_int()
+    if k == 1:
+        raise struct.error('short')
+    if k == 2:
+        raise core.InvalidPacketError('unknown PDU type')
+    if k == 3:
+        raise IndexError('short')
+    ghost.parsed_ok = True
+    return ghost.response
+
+
+def fut_resolve(ghost, value):
+    ghost.resolved = ghost.resolved + 1
+
+
+PID = sdp.PduId
+model('ghost:SdpFuture', fields={}, methods={'set_result': Callback('set_result', effect=fut_resolve), 'set_exception': Callback('set_exception', effect=fut_resolve)})
+model('bumble.sdp:SDP_ServiceSearchRequest#rq', fields=dict(transaction_id=IntRange(0, 0xFFFF), pdu_id=Const(PID.SDP_SERVICE_SEARCH_REQUEST)))
+model('bumble.sdp:SDP_ErrorResponse#rs', fields=dict(transaction_id=IntRange(0, 0xFFFF), pdu_id=Const(PID.SDP_ERROR_RESPONSE), error_code=IntRange(0, 0xFFFF)))
+model('bumble.sdp:SDP_ServiceSearchResponse#rs', fields=dict(transaction_id=IntRange(0, 0xFFFF), pdu_id=Const(PID.SDP_SERVICE_SEARCH_RESPONSE)))
+model('bumble.sdp:SDP_ServiceAttributeResponse#rs', fields=dict(transaction_id=IntRange(0, 0xFFFF), pdu_id=Const(PID.SDP_SERVICE_ATTRIBUTE_RESPONSE)))
+model('bumble.sdp:Client#17', fields=dict(pending_request=Opt(Inst('bumble.sdp:SDP_ServiceSearchRequest#rq')), pending_response=Opt(Inst('ghost:SdpFuture'))))
+
+
+def answers(self, response):
+    return self.pending_request is not None and response.transaction_id == self.pending_request.transaction_id and (
+        response.pdu_id == PID.SDP_ERROR_RESPONSE or response.pdu_id == PID.SDP_SERVICE_SEARCH_RESPONSE)
+
+
+contract(
+    'bumble.sdp:Client.on_pdu',
+    prop=PROP,
+    params=dict(self=Inst('bumble.sdp:Client#17'), pdu=Bytes),
+    ghost=dict(parsed_ok=Const(False), resolved=Int,
+               response=OneOf(Inst('bumble.sdp:SDP_ErrorResponse#rs'), Inst('bumble.sdp:SDP_ServiceSearchResponse#rs'), Inst('bumble.sdp:SDP_ServiceAttributeResponse#rs'))),
+    requires=lambda self: [(self.pending_request is None) == (self.pending_response is None)],
+    ensures=lambda self, old, ghost: [
+        implies(self.pending_request is None, ghost.resolved == old.ghost.resolved),
+        implies(self.pending_request is not None and ghost.parsed_ok, ghost.resolved == old.ghost.resolved + (1 if answers(self, ghost.response) else 0)),
+        # bytes that are not an SDP PDU while a request is pending: the requester is released (with the error)
+        implies(self.pending_request is not None and not ghost.parsed_ok, ghost.resolved == old.ghost.resolved + 1),
+    ],
+    ensures_names=['nothing-pending:ignored', 'waiter-resolved-iff-answer', 'unparseable-response-releases-the-waiter'],
+    raises={},
+    modifies=['ghost.parsed_ok', 'ghost.resolved'],
+    stubs={sdp.SDP_PDU.from_bytes.__func__: Callback('from_bytes', effect=sdp_parse_response, raises=(struct.error, core.InvalidPacketError, IndexError))},
+    inline=['bumble.core:ProtocolError.*', 'bumble.core:BaseError.*'],
+    note='S: pending_request / pending_response are in the frame (released by send_request\'s finally once the waiter is resolved)',
+)
